@@ -147,6 +147,15 @@ long hx_cli_knob(const char *name, long dflt)
     return dflt;
 }
 uint64_t hx_current_seed(void) { return cur_seed; }
+static char scratch_dir[256];
+static pid_t scratch_owner;
+static void scratch_cleanup(void) { if (scratch_dir[0] && getpid() == scratch_owner) rmdir(scratch_dir); }
+char *hx_scratch_dir(char *tmpl)
+{
+    char *d = mkdtemp(tmpl);
+    if (d && !scratch_dir[0]) { snprintf(scratch_dir, sizeof(scratch_dir), "%s", d); scratch_owner = getpid(); atexit(scratch_cleanup); }
+    return d;
+}
 int hx_in_replay(void) { return in_replay_mode; }
 static int child_fd = -1;
 
